@@ -331,3 +331,21 @@ Definition sweep_eval (g k : N) : N :=
   let pt := sweep_tables g k in pack (map (fun r => eval pt 5 r 3 4) all_rules).
 Definition sweep_spec (g k : N) : N :=
   pack (map (fun r => grants (Some (sweep_perms g k)) r 3 4) all_rules).
+
+(* ---- operations of the API and the rules the System methods consult before performing them
+   (systems/{streams,topics,partitions,consumer_groups,consumer_offsets,messages,clients,users}.rs):
+   everything that goes through System::find_topic first needs get_stream and get_topic on the target. ---- *)
+Definition via_topic (r : rule) : list rule := [RGetStream; RGetTopic; r].
+Definition rules_of_op (r : rule) : list rule :=
+  match r with
+  | RGetStream | RGetStreams | RCreateStream | RUpdateStream | RDeleteStream | RPurgeStream => [r]
+  | RGetTopic => [RGetStream; RGetTopic]
+  | RGetTopics | RCreateTopic => [r]
+  | RUpdateTopic | RDeleteTopic | RPurgeTopic | RCreatePartitions | RDeletePartitions
+  | RPoll | RAppend | RGetOffset | RStoreOffset | RDeleteOffset
+  | RCreateGroup | RDeleteGroup | RGetGroup | RGetGroups | RJoinGroup | RLeaveGroup => via_topic r
+  | _ => [r]
+  end.
+(* the request named by rule [r] is performed for a user with record [p] *)
+Definition op_allowed (p : option perms) (r : rule) (sid tid : N) : bool :=
+  forallb (fun q => allowed p q sid tid) (rules_of_op r).
